@@ -2,7 +2,7 @@
 
 proof    : coq/C16/Property.v — theorems about the Gallina transcription coq/C16/Model.v of
            linear_operator/utils/cholesky.py (all batch sizes, all matrix sizes, all max_tries, all settings states)
-tie      : correspondence — the model runs on PrimFloat (binary64) inside coqc (vm_compute) on the same inputs as the
+tie      : correspondence — the model (incl. the settings contexts the harness opened, with the values it asked for) runs on PrimFloat (binary64) inside coqc (vm_compute) on the same inputs as the
            real psd_safe_cholesky / DenseLinearOperator.cholesky; compared: outcome kind, jitter values of the warnings,
            the jitter in the NotPSDError message, the factor per member (conditioning-aware tolerance), the diagonal
            increments per member (diag(F F^T - A)), input unchanged
@@ -1015,6 +1015,10 @@ def run(ctx):
         "trusted_base": common.COQ_TRUSTED + [
             "coq/C16/Model.v is a hand transcription of linear_operator/utils/cholesky.py and of the dense _cholesky/cholesky path "
             "(not generated from the source); tied to the code only by the correspondence below",
+            "settings.cholesky_jitter / cholesky_max_tries / trace_mode contexts are modelled by Model.enter_all (hand transcription of "
+            "_dtype_value_context._set_value, _value_context._set_value, _feature_flag._set_state); __exit__ is not modelled: a context the harness "
+            "left again is absent from the model's stack and the comparison checks that its value is really gone. The harness feeds the model and "
+            "the oracle the values it ASKED the contexts to provide, never values read back from the library (class-level defaults excepted)",
             "torch.linalg.cholesky_ex is modelled per member by the Cholesky-Banachiewicz kernel `chol_kernel` (info = first non-positive or NaN pivot); "
             "LAPACK itself, torch.isnan/any/clone/diagonal/add_/expand/mT are modelled by their mathematical meaning",
             "binary64 PrimFloat evaluation of the model by vm_compute; float32 inputs are run through the binary64 model "
